@@ -226,6 +226,47 @@ func c07Cases(ctx *lib.Ctx) []c07Case {
 			}
 		}
 	}
+	// argument values from each constraint's documented domain that are awkward for a code generator
+	sc := lib.CScalar
+	var argCases []struct {
+		name string
+		c    lib.Constraint
+	}
+	addArg := func(name string, c lib.Constraint) {
+		argCases = append(argCases, struct {
+			name string
+			c    lib.Constraint
+		}{name, c})
+	}
+	for i, pat := range []string{"a`b", "^[`']+$", "^\\d+$", "^\"quoted\"$", "\\\\", "^(a|b)\\s*$", "%s %d %v", "$result", "$message $node", "é☃漢", "two\nlines", "{{ex.a}}", "#comment", "]})", "^$", ".*"} {
+		addArg(fmt.Sprintf("pattern-%d", i), sc("pattern", lib.Str(pat)))
+	}
+	for i, vals := range [][]lib.YNode{
+		{lib.Str("a\"b"), lib.Str("c\\d")}, {lib.Str("$message"), lib.Str("%d")}, {lib.Str("")}, {lib.Str("é☃"), lib.Str("x,y"), lib.Str("{ }")}, {lib.Int(0), lib.Int(-7), lib.Int(1000000)},
+		{lib.Bool(true), lib.Bool(false)}, {lib.RawScalar("2.5"), lib.RawScalar("-0.25")}, {lib.Str("true"), lib.Str("1"), lib.Int(1)}, {lib.Str("`"), lib.Str("'"), lib.Str("#")},
+	} {
+		for _, key := range []string{"in", "containsAll", "containsSome"} {
+			addArg(fmt.Sprintf("%s-values-%d", key, i), lib.Constraint{Key: key, Value: lib.YSeqOf(vals...)})
+		}
+	}
+	for i, num := range []string{"0", "-5", "2.5", "-0.5", "1e3", "1.0e-3", "123456789012", "-0", "007"} {
+		for _, key := range []string{"minInclusive", "maxInclusive", "minExclusive", "maxExclusive"} {
+			addArg(fmt.Sprintf("%s-%d", key, i), sc(key, lib.RawScalar(num)))
+		}
+	}
+	for i, n := range []int{0, 1, 2, 100, 65536} {
+		for _, key := range []string{"minCount", "maxCount", "exactCount", "minLength", "maxLength", "exactLength"} {
+			addArg(fmt.Sprintf("%s-%d", key, i), sc(key, lib.Int(n)))
+		}
+	}
+	for i, dt := range []string{"xsd.string", "xsd.integer", "xsd.float", "xsd.double", "xsd.boolean", "xsd.date", "xsd.dateTime", "xsd.anyURI", "shapes.Custom", "ex.MyType"} {
+		addArg(fmt.Sprintf("datatype-%d", i), sc("datatype", lib.Str(dt)))
+	}
+	for _, ac := range argCases {
+		atom := lib.PC1("ex.arg", ac.c)
+		cases = append(cases, c07Case{"arguments/" + ac.name + "/plain", c07Wrap("args", atom)},
+			c07Case{"arguments/" + ac.name + "/negated-in-nested", c07Wrap("args", lib.PC1("ex.k | ex.l^", lib.CNested(lib.NotE{Item: atom})))})
+	}
 	// profile names that sanitise to the same package name
 	for _, nm := range []string{"my profile", "my-profile", "MY_PROFILE", "my.profile", "my/profile/1.0", "1", "profile", "ünïcode name", "a  b", "-", "report", "data", "input", "violation"} {
 		p := c07Wrap("x", leaf)
